@@ -3,12 +3,27 @@
 //! (and unknown ones) with generated well-typed parameters, in random sequences, a liveness
 //! probe after each.  The hooks run in free-running mode: they only report when a worker has
 //! ended (so no response can still be on its way) and which request a panic belongs to.
+//! For the tie with the handler model (Server.v) every request is also emitted as a
+//! `Server.request` term, every answer as a summary of its content, and every state in which
+//! requests are sent as the real reader's output for its notes (section "the model's view").
+use crate::dump;
 use crate::gal::*;
+use crate::lib_stage::tables_of;
 use crate::rng::Rng;
 use crate::router_drv::{self as drv, Srv};
 use crate::PropModule;
+use fuzzy_matcher::{skim::SkimMatcherV2, FuzzyMatcher};
+use iwes::router::server::Server;
+use iwes::router::{LspClient, ServerConfig};
+use liwe::graph::{Graph, Reader};
+use liwe::markdown::MarkdownReader;
+use liwe::model::config::{Configuration, MarkdownOptions};
+use liwe::model::{Key, State};
 use lsp_server::Message;
+use lsp_types::Url;
+use serde::de::DeserializeOwned;
 use serde_json::{json, Value};
+use std::panic::{catch_unwind, AssertUnwindSafe};
 use std::time::Duration;
 
 pub fn module() -> PropModule {
@@ -195,8 +210,13 @@ pub fn generate(rng: &mut Rng, thorough: bool) -> Vec<Value> {
         let len = rng.range(4, 14);
         let mut items = vec![];
         for _ in 0..len {
-            match rng.below(12) {
+            match rng.below(13) {
                 0 => items.push(gen_note(rng)),
+                12 => {
+                    // the code actions offered on a line, then a resolve of (up to three of) them as offered
+                    let (u, _) = pick_uri(rng);
+                    items.push(json!({"k": "act", "uri": u, "line": rng.below(14), "tag": "offered"}));
+                }
                 1 => {
                     let k = rng.range(2, 6);
                     let reqs: Vec<Value> = (0..k).map(|_| req_item(gen_request(rng))).collect();
@@ -232,6 +252,7 @@ pub fn label(v: &Value) -> String {
     for it in v["items"].as_array().map(|a| a.as_slice()).unwrap_or(&[]) {
         match it["k"].as_str() {
             Some("req") => { if let Some(x) = req_feature(it) { add(x, &mut f) } }
+            Some("act") => add("offered-action", &mut f),
             Some("burst") => {
                 add("burst", &mut f);
                 for r in it["reqs"].as_array().map(|a| a.as_slice()).unwrap_or(&[]) { if let Some(x) = req_feature(r) { add(x, &mut f) } }
@@ -247,10 +268,329 @@ fn kind_of(method: &str) -> u64 {
     match method { "workspace/executeCommand" => 1, "shutdown" => 2, _ => 0 }
 }
 
-struct Obs { id: i32, kind: u64, panicked: bool, resps: Vec<u64>, done: bool }
+struct Obs { id: i32, kind: u64, panicked: bool, resps: Vec<u64>, done: bool, mreq: String, sum: String }
 
 fn gobs(o: &Obs) -> String {
-    gapp("Check_C12.RO", &[gn(o.id as u64), gn(o.kind), gbool(o.panicked), glist(&o.resps.iter().map(|k| format!("{}%N", k)).collect::<Vec<_>>()), gbool(o.done)])
+    gapp("Check_C12.RO", &[gn(o.id as u64), gn(o.kind), gbool(o.panicked), glist(&o.resps.iter().map(|k| format!("{}%N", k)).collect::<Vec<_>>()), gbool(o.done), o.mreq.clone(), o.sum.clone()])
+}
+
+// ------------------------------------------------------------------ the model's view (Server.v)
+//
+// For the request-by-request tie with `Server.handle` / `Server.may_panic` every request is also
+// written as a `Server.request` term with its parameters mapped the way the server maps them, every
+// answer as a summary of its content, and every state in which requests are sent as what the model
+// builds its `sstate` from: the real reader's output for the text of every note (blocks for the
+// graph, positioned blocks for the parser) in the order the notifications produced them.
+
+/// line / character / node ids above this are sent to the model as this value: the model's numbers
+/// are unary, and every line, column and node id of the (fixed, small) library is far below
+/// (the Coq side checks the arena size against it)
+const CLAMP: u64 = 10000;
+
+fn cl(n: u64) -> String {
+    gn(n.min(CLAMP))
+}
+
+/// Actions.akind, in the numbering of Actions.kind_of_nat
+const AKINDS: [(&str, &str); 7] = [
+    ("refactor.extract.section", "Actions.SectionExtract"),
+    ("refactor.extract.subsections", "Actions.SubSectionsExtract"),
+    ("refactor.inline.reference.section", "Actions.InlineSection"),
+    ("refactor.inline.reference.quote", "Actions.InlineQuote"),
+    ("refactor.rewrite.section.list", "Actions.SectionToList"),
+    ("refactor.rewrite.list.section", "Actions.ListToSections"),
+    ("refactor.rewrite.list.type", "Actions.ListChangeType"),
+];
+
+fn akind(k: &str) -> Option<&'static str> {
+    AKINDS.iter().find(|(s, _)| *s == k).map(|(_, c)| *c)
+}
+
+fn akind_no(k: &str) -> u64 {
+    AKINDS.iter().position(|(s, _)| *s == k).map(|i| i as u64 + 1).unwrap_or(0)
+}
+
+fn gz(z: i64) -> String {
+    format!("(Check_C12.zs {} {}%N)", z < 0, z.unsigned_abs())
+}
+
+/// the real reader on one text: (front matter, blocks for the graph, positioned blocks for the parser)
+fn read_text(text: &str) -> (String, String, String) {
+    match catch_unwind(AssertUnwindSafe(|| {
+        let d = MarkdownReader::new().document(text);
+        (gopt(d.metadata.clone().map(|m| gstr(&m))), dump::dblocks(&d.blocks), glist(&d.blocks.iter().map(crate::c13::pblock).collect::<Vec<_>>()))
+    })) {
+        Ok(x) => x,
+        // never seen; an empty note makes the model disagree with whatever the server did
+        Err(_) => ("None".into(), "[]".into(), "[]".into()),
+    }
+}
+
+/// A second copy of the library, outside the router: a graph that receives the same updates (table
+/// oracle, search texts for the fuzzy-score oracle) and a server with the same base path that is
+/// only asked how `BasePath::url_to_key` maps a URI (the `target_key` of its prompt completions).
+struct Shadow {
+    graph: Graph,
+    keyer: Server,
+    options: MarkdownOptions,
+}
+
+impl Shadow {
+    fn new(docs: &[(String, String)]) -> Shadow {
+        let options = MarkdownOptions::default();
+        let state: State = docs.iter().cloned().collect();
+        let graph = Graph::import(&state, options.clone());
+        let mut configuration = Configuration::default();
+        configuration.prompt_key_prefix = Some(String::new());
+        let keyer = Server::new(ServerConfig {
+            base_path: drv::BASE.to_string(),
+            state: [("p".to_string(), String::new())].into_iter().collect(),
+            sequential_ids: Some(true),
+            lsp_client: LspClient::Unknown,
+            configuration,
+        });
+        Shadow { graph, keyer, options }
+    }
+
+    /// `uri.to_key(&self.base_path)` of the server
+    fn key(&self, uri: &Url) -> Option<String> {
+        let params = lsp_types::CompletionParams {
+            text_document_position: lsp_types::TextDocumentPositionParams {
+                text_document: lsp_types::TextDocumentIdentifier { uri: uri.clone() },
+                position: lsp_types::Position::new(0, 0),
+            },
+            work_done_progress_params: Default::default(),
+            partial_result_params: Default::default(),
+            context: None,
+        };
+        let r = catch_unwind(AssertUnwindSafe(|| self.keyer.handle_completion(params))).ok()?;
+        let items = match r {
+            lsp_types::CompletionResponse::List(l) => l.items,
+            lsp_types::CompletionResponse::Array(a) => a,
+        };
+        items.into_iter().find_map(|it| it.command.and_then(|c| c.arguments).and_then(|a| a.first().and_then(|x| x.get("target_key").and_then(|t| t.as_str()).map(|t| t.to_string()))))
+    }
+
+    fn update(&mut self, key: &str, text: &str) {
+        let k = Key::from_file_name(key);
+        let _ = catch_unwind(AssertUnwindSafe(|| self.graph.update_key(k, text)));
+    }
+
+    /// table oracle of the current state: (key, texts of its tables) for the notes that have tables
+    fn tables(&self) -> String {
+        let mut keys: Vec<Key> = self.graph.keys();
+        keys.sort_by(|a, b| a.to_string().cmp(&b.to_string()));
+        let mut out = vec![];
+        for k in keys {
+            let t = tables_of(&self.graph, &k, &self.options);
+            if !t.is_empty() {
+                out.push(gpair(&gstr(&k.to_string()), &glist(&t.iter().map(|x| gstr(x)).collect::<Vec<_>>())));
+            }
+        }
+        glist(&out)
+    }
+
+    /// fuzzy-score oracle for one query: the non-zero scores of the search texts of the current state
+    fn scores(&self, q: &str) -> String {
+        let matcher = SkimMatcherV2::default();
+        let mut out: Vec<(String, i64)> = vec![];
+        if let Ok(sp) = catch_unwind(AssertUnwindSafe(|| self.graph.search_paths())) {
+            for p in sp {
+                let sc = matcher.fuzzy_match(&p.search_text, q).unwrap_or(0);
+                if sc != 0 && !out.iter().any(|(t, _)| *t == p.search_text) {
+                    out.push((p.search_text.clone(), sc));
+                }
+            }
+        }
+        glist(&out.iter().map(|(t, z)| gpair(&gstr(t), &gz(*z))).collect::<Vec<_>>())
+    }
+}
+
+fn de<T: DeserializeOwned>(v: &Value) -> Option<T> {
+    serde_json::from_value::<T>(v.clone()).ok()
+}
+
+fn gposn(p: &lsp_types::Position) -> String {
+    gpair(&cl(p.line as u64), &cl(p.character as u64))
+}
+
+/// the request as the model sees it: `QReq r` (the handler runs on these mapped parameters),
+/// `QIllTyped` (the parameters do not deserialise: no handler runs), `QOutside` (shutdown,
+/// executeCommand, or a URI the key oracle could not map)
+fn model_request(sh: &Shadow, method: &str, params: &Value) -> String {
+    use lsp_types::*;
+    let q = |r: String| gapp("Check_C12.QReq", &[r]);
+    let ill = "Check_C12.QIllTyped".to_string();
+    let outside = "Check_C12.QOutside".to_string();
+    let keyed = |uri: &Url, f: &dyn Fn(String) -> String| match sh.key(uri) {
+        Some(k) => q(f(gstr(&k))),
+        None => outside.clone(),
+    };
+    match method {
+        "shutdown" | "workspace/executeCommand" => outside.clone(),
+        "textDocument/inlayHint" => match de::<InlayHintParams>(params) {
+            Some(p) => keyed(&p.text_document.uri, &|k| gapp("Server.RInlayHint", &[k])),
+            None => ill,
+        },
+        "textDocument/inlineValues" => match de::<InlineValueParams>(params) {
+            Some(_) => q("Server.RInlineValues".into()),
+            None => ill,
+        },
+        "textDocument/documentSymbol" => match de::<DocumentSymbolParams>(params) {
+            Some(p) => keyed(&p.text_document.uri, &|k| gapp("Server.RDocumentSymbol", &[k])),
+            None => ill,
+        },
+        "textDocument/definition" => match de::<GotoDefinitionParams>(params) {
+            Some(p) => keyed(&p.text_document_position_params.text_document.uri, &|k| gapp("Server.RDefinition", &[k, gposn(&p.text_document_position_params.position)])),
+            None => ill,
+        },
+        "workspace/symbol" => match de::<WorkspaceSymbolParams>(params) {
+            Some(p) => q(gapp("Server.RWorkspaceSymbol", &[gbool(p.query.is_empty()), gapp("Check_C12.score_of", &[sh.scores(&p.query)])])),
+            None => ill,
+        },
+        "textDocument/completion" => match de::<CompletionParams>(params) {
+            Some(p) => keyed(&p.text_document_position.text_document.uri, &|k| gapp("Server.RCompletion", &[k])),
+            None => ill,
+        },
+        "completionItem/resolve" => match de::<CompletionItem>(params) {
+            Some(_) => q("Server.RCompletionResolve".into()),
+            None => ill,
+        },
+        "textDocument/codeAction" => match de::<CodeActionParams>(params) {
+            Some(p) => {
+                // `only.contains(kind)`: the entries that name none of the providers never match
+                let only = gopt(p.context.only.as_ref().map(|l| glist(&l.iter().filter_map(|k| akind(k.as_str()).map(|s| s.to_string())).collect::<Vec<_>>())));
+                keyed(&p.text_document.uri, &|k| gapp("Server.RCodeAction", &[k, cl(p.range.start.line as u64), gbool(p.range.start == p.range.end), only.clone()]))
+            }
+            None => ill,
+        },
+        "codeAction/resolve" => match de::<CodeAction>(params) {
+            Some(a) => {
+                // `data.unwrap().as_u64().unwrap()`, `kind.unwrap()` + `find(..).unwrap()`
+                let data = gopt(a.data.as_ref().and_then(|d| d.as_u64()).map(cl));
+                let kind = gopt(a.kind.as_ref().and_then(|k| akind(k.as_str())).map(|s| s.to_string()));
+                q(gapp("Server.RCodeActionResolve", &[kind, data, "Actions.KSeq".into()]))
+            }
+            None => ill,
+        },
+        "textDocument/formatting" => match de::<DocumentFormattingParams>(params) {
+            Some(p) => keyed(&p.text_document.uri, &|k| gapp("Server.RFormatting", &[k])),
+            None => ill,
+        },
+        "textDocument/references" => match de::<ReferenceParams>(params) {
+            Some(p) => keyed(&p.text_document_position.text_document.uri, &|k| gapp("Server.RReferences", &[k])),
+            None => ill,
+        },
+        "textDocument/prepareRename" => match de::<TextDocumentPositionParams>(params) {
+            Some(p) => keyed(&p.text_document.uri, &|k| gapp("Server.RPrepareRename", &[k, gposn(&p.position)])),
+            None => ill,
+        },
+        "textDocument/rename" => match de::<RenameParams>(params) {
+            Some(p) => keyed(&p.text_document_position.text_document.uri, &|k| gapp("Server.RRename", &[k, gposn(&p.text_document_position.position), gstr(&p.new_name)])),
+            None => ill,
+        },
+        _ => q("Server.RUnknown".into()),
+    }
+}
+
+fn juri(v: &Value) -> String {
+    gstr(v.as_str().unwrap_or("<no uri>"))
+}
+
+fn jn(v: &Value) -> String {
+    cl(v.as_u64().unwrap_or(CLAMP))
+}
+
+fn jpos(v: &Value) -> String {
+    gpair(&jn(&v["line"]), &jn(&v["character"]))
+}
+
+/// the operations of a WorkspaceEdit as (constructor for delete, create, full-range edit, insert at 0:0)
+fn edit_ops(edit: &Value, names: [&str; 4]) -> String {
+    let mut out = vec![];
+    for op in edit["documentChanges"].as_array().map(|a| a.as_slice()).unwrap_or(&[]) {
+        match op["kind"].as_str() {
+            Some("delete") => out.push(gapp(names[0], &[juri(&op["uri"])])),
+            Some("create") => out.push(gapp(names[1], &[juri(&op["uri"])])),
+            Some(other) => out.push(gapp(names[0], &[gstr(&format!("<{}>", other))])),
+            None => {
+                let uri = juri(&op["textDocument"]["uri"]);
+                let edits = op["edits"].as_array().map(|a| a.as_slice()).unwrap_or(&[]);
+                let text = edits.iter().map(|e| e["newText"].as_str().unwrap_or("")).collect::<Vec<_>>().join("");
+                let whole = edits.len() == 1 && edits[0]["range"]["end"]["line"].as_u64() == Some(u32::MAX as u64);
+                out.push(gapp(if whole { names[2] } else { names[3] }, &[uri, gstr(&text)]));
+            }
+        }
+    }
+    glist(&out)
+}
+
+/// what the answer carries, per method (`Check_C12.osum`); `ONone`: an error answer / nothing kept
+fn summary(method: &str, params: &Value, resp: Option<&lsp_server::Response>) -> String {
+    let none = "Check_C12.ONone".to_string();
+    let r = match resp {
+        Some(r) if r.error.is_none() => r.result.clone().unwrap_or(Value::Null),
+        _ => return none,
+    };
+    let arr = |v: &Value| v.as_array().cloned().unwrap_or_default();
+    match method {
+        "textDocument/inlayHint" => gapp("Check_C12.OHints", &[glist(&arr(&r).iter().map(|h| gpair(&gstr(h["label"].as_str().unwrap_or("<label>")), &jn(&h["position"]["line"]))).collect::<Vec<_>>())]),
+        "textDocument/inlineValues" => gapp("Check_C12.OCount", &[gn(arr(&r).len() as u64)]),
+        "textDocument/documentSymbol" => gapp("Check_C12.OSymbols", &[glist(&arr(&r).iter().map(|s| format!("({}, {}, {})", gstr(s["name"].as_str().unwrap_or("")), juri(&s["location"]["uri"]), jn(&s["location"]["range"]["start"]["line"]))).collect::<Vec<_>>())]),
+        "textDocument/definition" => gapp("Check_C12.ODefinition", &[gopt(if r.is_array() { None } else { Some(juri(&r["uri"])) })]),
+        "workspace/symbol" => gapp("Check_C12.OWsSymbols", &[glist(&arr(&r).iter().map(|s| format!("({}, {}, {}, {})", gstr(s["name"].as_str().unwrap_or("")), gbool(s["kind"].as_u64() == Some(3)), juri(&s["location"]["uri"]), jn(&s["location"]["range"]["start"]["line"]))).collect::<Vec<_>>())]),
+        "textDocument/completion" => gapp("Check_C12.OCompletion", &[glist(&arr(&r["items"]).iter().map(|i| gpair(&gstr(i["label"].as_str().unwrap_or("")), &gstr(i["insertText"].as_str().unwrap_or("")))).collect::<Vec<_>>())]),
+        "completionItem/resolve" => {
+            let same = match (de::<lsp_types::CompletionItem>(params), de::<lsp_types::CompletionItem>(&r)) { (Some(a), Some(b)) => a == b, _ => false };
+            gapp("Check_C12.OSame", &[gbool(same)])
+        }
+        "textDocument/codeAction" => gapp("Check_C12.OActions", &[glist(&arr(&r).iter().map(|a| format!("({}, {}, {})", gn(akind_no(a["kind"].as_str().unwrap_or(""))), gstr(a["title"].as_str().unwrap_or("")), jn(&a["data"]))).collect::<Vec<_>>())]),
+        "codeAction/resolve" => gapp("Check_C12.OEdit", &[edit_ops(&r["edit"], ["Server.DDelete", "Server.DCreate", "Server.DEdit", "Server.DEdit"])]),
+        "textDocument/formatting" => {
+            let a = arr(&r);
+            if a.len() == 1 { gapp("Check_C12.OText", &[gstr(a[0]["newText"].as_str().unwrap_or(""))]) } else { none }
+        }
+        "textDocument/references" => gapp("Check_C12.OLocations", &[glist(&arr(&r).iter().map(|l| gpair(&juri(&l["uri"]), &gpair(&jn(&l["range"]["start"]["line"]), &jn(&l["range"]["end"]["line"])))).collect::<Vec<_>>())]),
+        "textDocument/prepareRename" => gapp("Check_C12.OPrepare", &[gopt(if r.is_null() { None } else { Some(gpair(&gpair(&jpos(&r["range"]["start"]), &jpos(&r["range"]["end"])), &gstr(r["placeholder"].as_str().unwrap_or("<placeholder>")))) })]),
+        "textDocument/rename" => gapp("Check_C12.ORename", &[
+            if r.is_null() { "Rename.RNone".to_string() }
+            else if r.get("message").is_some() { gapp("Rename.RErr", &[gstr(r["message"].as_str().unwrap_or(""))]) }
+            else { gapp("Rename.REdits", &[edit_ops(&r, ["Rename.OpDelete", "Rename.OpCreate", "Rename.OpOverride", "Rename.OpInsert"])]) }
+        ]),
+        _ => none,
+    }
+}
+
+/// the notification as the model sees it (`Server.note`), and whether it changes the library
+fn model_note(sh: &mut Shadow, method: &str, params: &Value) -> String {
+    use lsp_types::*;
+    let change = |sh: &mut Shadow, uri: &Url, text: &str| -> String {
+        match sh.key(uri) {
+            Some(k) => {
+                let (meta, bs, d) = read_text(text);
+                sh.update(&k, text);
+                gopt(Some(gapp("Server.NChange", &[gstr(&k), meta, bs, d])))
+            }
+            None => "None".into(),
+        }
+    };
+    match method {
+        "textDocument/didChange" => match de::<DidChangeTextDocumentParams>(params) {
+            Some(p) => match p.content_changes.first() {
+                Some(c) => change(sh, &p.text_document.uri, &c.text),
+                None => "(Some Server.NChangeNone)".into(),
+            },
+            None => "None".into(),
+        },
+        "textDocument/didSave" => match de::<DidSaveTextDocumentParams>(params) {
+            Some(p) => match &p.text {
+                Some(t) => change(sh, &p.text_document.uri, t),
+                None => "(Some Server.NSaveNoText)".into(),
+            },
+            None => "None".into(),
+        },
+        _ => "None".into(),
+    }
 }
 
 fn canonical(v: &Value) -> String {
@@ -269,14 +609,24 @@ pub fn execute(v: &Value) -> String {
     let _ = drv::take_panics();
     let docs = std_docs();
     let mut srv = Srv::start(&docs, drv::configuration(v["model"].as_bool().unwrap_or(false)), false);
+    let mut shadow = Shadow::new(&docs);
+    // the start state for the model: the notes in import order (sorted by name), read by the real reader
+    let mut sorted = docs.clone();
+    sorted.sort_by(|a, b| a.0.cmp(&b.0));
+    let notes0 = glist(&sorted.iter().map(|(name, text)| {
+        let (meta, bs, d) = read_text(text);
+        gapp("Check_C12.SN", &[gstr(name), meta, bs, d])
+    }).collect::<Vec<_>>());
+    let tables0 = shadow.tables();
     let mut next_id: i32 = 1;
     let mut sent_ids: Vec<i32> = vec![];
     let mut baseline: Option<String> = None;
     let mut items: Vec<String> = vec![];
 
     // run `reqs` (in flight together), wait for their workers, observe
-    let run_reqs = |srv: &mut Srv, reqs: &[(String, Value)], next_id: &mut i32, sent_ids: &mut Vec<i32>| -> Vec<Obs> {
+    let run_reqs = |srv: &mut Srv, shadow: &Shadow, reqs: &[(String, Value)], next_id: &mut i32, sent_ids: &mut Vec<i32>| -> Vec<Obs> {
         let mut ids = vec![];
+        let mreqs: Vec<String> = reqs.iter().map(|(m, p)| model_request(shadow, m, p)).collect();
         for (m, p) in reqs {
             let id = *next_id;
             *next_id += 1;
@@ -292,21 +642,24 @@ pub fn execute(v: &Value) -> String {
         let panics = drv::take_panics();
         ids.iter()
             .zip(done)
-            .map(|((id, kind), d)| Obs {
+            .zip(mreqs.into_iter().zip(reqs.iter()))
+            .map(|(((id, kind), d), (mreq, (m, p)))| Obs {
                 id: *id,
                 kind: *kind,
                 panicked: panics.iter().any(|p| p.as_deref() == Some(id.to_string().as_str())),
                 resps: drv::response_kinds(&srv.received, *id),
                 done: d,
+                mreq,
+                sum: { let rs = drv::responses_to(&srv.received, *id); summary(m, p, if rs.len() == 1 { Some(rs[0]) } else { None }) },
             })
             .collect()
     };
 
-    let probe = |srv: &mut Srv, next_id: &mut i32, sent_ids: &mut Vec<i32>, baseline: &mut Option<String>| -> (Obs, bool) {
+    let probe = |srv: &mut Srv, shadow: &Shadow, next_id: &mut i32, sent_ids: &mut Vec<i32>, baseline: &mut Option<String>| -> (Obs, Obs, bool) {
         // two probes: the symbol listing (its observation is the one reported) and the code actions
         // offered on the first line of note 2, a request that goes through the action providers and
         // their shared tables; both answers must stay what they were
-        let mut os = run_reqs(srv, &[
+        let mut os = run_reqs(srv, shadow, &[
             ("workspace/symbol".to_string(), json!({"query": ""})),
             ("textDocument/codeAction".to_string(), json!({"textDocument": {"uri": "file:///base/2.md"}, "range": {"start": {"line": 0, "character": 0}, "end": {"line": 0, "character": 0}}, "context": {"diagnostics": []}})),
         ], next_id, sent_ids);
@@ -322,28 +675,42 @@ pub fn execute(v: &Value) -> String {
             (Some(b), Some(a)) => a == b,
             (_, None) => false,
         };
-        (o, same)
+        (o, o2, same)
     };
 
     for it in v["items"].as_array().map(|a| a.as_slice()).unwrap_or(&[]) {
         match it["k"].as_str() {
             Some("req") => {
-                let o = run_reqs(&mut srv, &[(it["method"].as_str().unwrap_or("").to_string(), it["params"].clone())], &mut next_id, &mut sent_ids).pop().unwrap();
-                let (p, same) = probe(&mut srv, &mut next_id, &mut sent_ids, &mut baseline);
-                items.push(gapp("Check_C12.IReq", &[gobs(&o), gobs(&p), gbool(same)]));
+                let o = run_reqs(&mut srv, &shadow, &[(it["method"].as_str().unwrap_or("").to_string(), it["params"].clone())], &mut next_id, &mut sent_ids).pop().unwrap();
+                let (p, p2, same) = probe(&mut srv, &shadow, &mut next_id, &mut sent_ids, &mut baseline);
+                items.push(gapp("Check_C12.IReq", &[gobs(&o), gobs(&p), gobs(&p2), gbool(same)]));
+            }
+            Some("act") => {
+                let line = it["line"].as_u64().unwrap_or(0);
+                let params = json!({"textDocument": td(it["uri"].as_str().unwrap_or("")), "range": {"start": {"line": line, "character": 0}, "end": {"line": line, "character": 0}}, "context": {"diagnostics": []}});
+                let o = run_reqs(&mut srv, &shadow, &[("textDocument/codeAction".to_string(), params)], &mut next_id, &mut sent_ids).pop().unwrap();
+                let offered: Vec<Value> = drv::responses_to(&srv.received, o.id).first().and_then(|r| r.result.as_ref()).and_then(|v| v.as_array().cloned()).unwrap_or_default();
+                let (p, p2, same) = probe(&mut srv, &shadow, &mut next_id, &mut sent_ids, &mut baseline);
+                items.push(gapp("Check_C12.IReq", &[gobs(&o), gobs(&p), gobs(&p2), gbool(same)]));
+                for a in offered.into_iter().take(3) {
+                    let o = run_reqs(&mut srv, &shadow, &[("codeAction/resolve".to_string(), a)], &mut next_id, &mut sent_ids).pop().unwrap();
+                    let (p, p2, same) = probe(&mut srv, &shadow, &mut next_id, &mut sent_ids, &mut baseline);
+                    items.push(gapp("Check_C12.IReq", &[gobs(&o), gobs(&p), gobs(&p2), gbool(same)]));
+                }
             }
             Some("burst") => {
                 let reqs: Vec<(String, Value)> = it["reqs"].as_array().map(|a| a.as_slice()).unwrap_or(&[]).iter().map(|r| (r["method"].as_str().unwrap_or("").to_string(), r["params"].clone())).collect();
-                let os = run_reqs(&mut srv, &reqs, &mut next_id, &mut sent_ids);
-                let (p, same) = probe(&mut srv, &mut next_id, &mut sent_ids, &mut baseline);
-                items.push(gapp("Check_C12.IBurst", &[glist(&os.iter().map(gobs).collect::<Vec<_>>()), gobs(&p), gbool(same)]));
+                let os = run_reqs(&mut srv, &shadow, &reqs, &mut next_id, &mut sent_ids);
+                let (p, p2, same) = probe(&mut srv, &shadow, &mut next_id, &mut sent_ids, &mut baseline);
+                items.push(gapp("Check_C12.IBurst", &[glist(&os.iter().map(gobs).collect::<Vec<_>>()), gobs(&p), gobs(&p2), gbool(same)]));
             }
             _ => {
                 srv.notify(it["method"].as_str().unwrap_or(""), it["params"].clone());
                 let panicked = srv.wait_note_end(WORKER_LIMIT).unwrap_or(true);
                 let _ = drv::take_panics();
                 baseline = None;
-                items.push(gapp("Check_C12.INote", &[gbool(it["hostile"].as_bool().unwrap_or(false)), gbool(panicked)]));
+                let note = model_note(&mut shadow, it["method"].as_str().unwrap_or(""), &it["params"]);
+                items.push(gapp("Check_C12.INote", &[gbool(it["hostile"].as_bool().unwrap_or(false)), gbool(panicked), note, shadow.tables()]));
             }
         }
     }
@@ -352,5 +719,5 @@ pub fn execute(v: &Value) -> String {
     srv.drain();
     let edits = srv.received.iter().filter(|m| matches!(m, Message::Request(r) if r.method == "workspace/applyEdit")).count();
     let stray = srv.received.iter().filter(|m| matches!(m, Message::Response(r) if !sent_ids.iter().any(|i| lsp_server::RequestId::from(*i) == r.id))).count();
-    gapp("Check_C12.Case", &[glist(&items), gbool(send_exit), gn(edits as u64), gn(stray as u64), gn(loop_code)])
+    gapp("Check_C12.Case", &[glist(&items), gbool(send_exit), gn(edits as u64), gn(stray as u64), gn(loop_code), notes0, tables0])
 }
